@@ -110,6 +110,40 @@ Example C13_demux_exact_nonvacuous :
         {| s_conn := [0; 0; 0; 0; 0; 0; 0; 0] ++ bs "junk"; s_buf := []; s_stderr := [bs "warn"] |}).
 Proof. vm_compute. reflexivity. Qed.
 
+
+(* ... and a caller that keeps reading (buffers of at least one byte, enough reads) gets
+   everything: all output bytes, all stderr bytes on the side, then EOF *)
+Theorem C13_demux_complete :
+  forall recs tail sizes d e s',
+  Forall valid_rec recs ->
+  (forall m, In m sizes -> (1 <= m)%nat) ->
+  (length (stdout_of recs) + length recs < length sizes)%nat ->
+  sr_read_all (sr_init (wire_of recs ++ enc_rec end_rec ++ tail)) sizes [] = Ok (d, e, s') ->
+  e = Some REOF /\ d = stdout_of recs /\ stderr_of s' = contents_of T_STDERR recs.
+Proof. exact demux_complete. Qed.
+Print Assumptions C13_demux_complete.
+
+(* The response as a whole: for EVERY conforming head (fields) and body, EVERY framing of
+   head ++ body into output records with stderr records interleaved anywhere, what the client
+   side parses is exactly the responder's fields and body; stderr is complete and separate. *)
+Theorem C13_response_exact :
+  forall fields body recs tail sizes d e s',
+  Forall conf_field fields -> Forall valid_rec recs ->
+  stdout_of recs = render_head fields ++ body ->
+  (forall m, In m sizes -> (1 <= m)%nat) ->
+  (length (stdout_of recs) + length recs < length sizes)%nat ->
+  sr_read_all (sr_init (wire_of recs ++ enc_rec end_rec ++ tail)) sizes [] = Ok (d, e, s') ->
+  parse_head d = Some (fields, body) /\ stderr_of s' = contents_of T_STDERR recs /\ e = Some REOF.
+Proof. exact response_exact. Qed.
+Print Assumptions C13_response_exact.
+
+Example C13_response_exact_nonvacuous :
+  let fields := [(bs "Status", bs "404 Not Found"); (bs "X-A", bs "1")] in
+  let recs := [(6, bs "Status: 404 N", 0); (7, bs "oops", 2); (6, bs "ot Found" ++ [13; 10] ++ bs "X-A: 1" ++ [13], 5);
+               (6, [10; 13; 10] ++ bs "body", 0)] in
+  stdout_of recs = render_head fields ++ bs "body" /\ resp_status fields = Some 404.
+Proof. vm_compute. split; reflexivity. Qed.
+
 (* ---------- dispatch ---------- *)
 
 (* An existing file with the rule's extension (any letter case) under the rule's path, not
@@ -175,3 +209,28 @@ Theorem C13_split_total :
   forall cs r f, can_split cs r f = true -> exists d pi, split_at cs r f = Ok (d, pi).
 Proof. exact split_at_total. Qed.
 Print Assumptions C13_split_total.
+
+(* ---------- CGI variables ---------- *)
+
+(* every header arrives as HTTP_<NAME> with its values joined by ", " — for EVERY request whose
+   header fields map to distinct HTTP_* names, whatever the configured env entries and method *)
+Theorem C13_env_headers_arrive :
+  forall cs sv r q f el n vals,
+  env_list cs sv r q f = Ok el ->
+  NoDup (map (fun kv => env_name (fst kv)) (q_headers q)) ->
+  In (n, vals) (q_headers q) ->
+  env_lookup (env_name n) el = Some (join (bs ", ") vals).
+Proof. exact env_headers_arrive. Qed.
+Print Assumptions C13_env_headers_arrive.
+
+(* every configured env entry arrives (the last one of a name wins) unless a request header maps
+   to the same name or it is one of REQUEST_METHOD / CONTENT_LENGTH / CONTENT_TYPE, which the
+   client sets per method *)
+Theorem C13_env_entries_arrive_partial :
+  forall cs sv r q f el k,
+  env_list cs sv r q f = Ok el ->
+  mem k (map (fun kv => env_name (fst kv)) (q_headers q)) = false ->
+  mem k METHOD_VARS = false ->
+  forall v, env_lookup k (r_env r) = Some v -> env_lookup k el = Some v.
+Proof. exact env_entries_arrive. Qed.
+Print Assumptions C13_env_entries_arrive_partial.
